@@ -8,7 +8,7 @@ NOTE_COMMON = "Trusted base: rustc's HIR/MIR construction and type checking on t
 
 CLAIMS = {
  "C01": ("MIR dataflow + dominance + dispatch-table analysis of writer/reader bookkeeping", "4 C01",
-         "Static analysis over the compiler's MIR of the current tree: entry counter incremented exactly once per insert and plumbed to the trailer and Reader::len; the codec/level reaching compress() at every block write and the codec named in the trailer have the builder's setters as their origin (interprocedural origin sets), and every block load uses the trailer's codec; no call that fills a byte buffer has its produced length discarded; compress/decompress dispatch tables agree per variant and from_u8 inverts `as u8` on all 256 ids; every block write is paired with a parent index entry (last key, offset read before the write) except the root; finish order (data, levels last-to-first, trailer last, flush); depth arithmetic; forward/backward twins are mirror images; a non-empty pending block is always flushed. Byte equality of the round trip through the codec crates is not decided."),
+         "Static analysis over the compiler's MIR of the current tree: entry counter incremented exactly once per insert and plumbed to the trailer and Reader::len; the codec/level reaching compress() at every block write and the codec named in the trailer have the builder's setters as their origin (interprocedural origin sets), and every block load uses the trailer's codec; no call that fills a byte buffer has its produced length discarded; compress/decompress dispatch tables agree per variant and from_u8 inverts `as u8` on all 256 ids; every block write is paired with a parent index entry (last key, offset read before the write) except the root; finish order (data, levels last-to-first, trailer last, flush); depth arithmetic; forward/backward twins are mirror images; a non-empty pending block is always flushed; the entry frame written by BlockWriter::insert agrees with the regions Block::entry_at reads, and no end-of-payload test of entry_at can turn a well-formed entry (empty key / value at the end of a block) into None (linear form over the frame's fields). Byte equality of the round trip through the codec crates is not decided."),
  "C02": ("MIR comparison inventory (REL) + probe/offset dataflow on the seek path", "4 C02",
          "Static analysis: index keyed by last keys with the child's start offset, one probe through all levels, every key comparison on the seek path in canonical form with the action of each outcome (strictness, direction, arm), offset-table layout agreement between BlockWriter::insert and Block::read_from, single steps across block boundaries. Necessary conditions of exact ceiling/floor/match; algorithmic correctness over all key sets is not decided."),
  "C03": ("MIR pairing/dominance analysis of cached cursor state (typestate-like coherence) + compile-fail witness", "4 C03",
@@ -20,13 +20,13 @@ CLAIMS = {
  "C06": ("MIR ordering-expression decoding + pop/push pairing + merge-once dominance", "4 C06",
          "Static analysis: Entry::cmp decoded into (key, source index) both reversed once; source index from enumerate() over an append-only sources vector; one merge call outside loops with first-popped key and values in pop order; whole-key equality gathers; output buffers cleared before refill; every popped entry advanced once (error propagated) and pushed back iff non-empty; streaming loops insert exactly what was yielded. BinaryHeap's contract is trusted."),
  "C07": ("MIR control-skeleton analysis of the sorter (dominance, tables, layout agreement) + merger rules", "4 C07",
-         "Static analysis: every insert path stores the entry exactly once; write_chunk sorts once, groups on whole-key inequality, merges once per group, pushes the flushed chunk then clears; every consumer goes through one final spill; chunk vector append/drain-only so order = age; chunks flushed before pushed and re-read from 0; sort dispatch tables (stable/unstable, sequential/rayon); all builder settings plumbed; buffer layout written by insert = layout read by iter/sort key; plus the C06 merger rules. Output equality with a reference sort-and-merge is not decided."),
+         "Static analysis: every insert path stores the entry exactly once; write_chunk sorts once, groups on whole-key inequality, merges once per group, pushes the flushed chunk then clears; every consumer goes through one final spill; chunk vector append/drain-only so order = age; chunks flushed before pushed and re-read from 0; sort dispatch tables (stable/unstable, sequential/rayon); all builder settings plumbed; buffer layout written by insert = layout read by iter/sort key, and the reallocation copies bounds to the front and entry bytes to the back of the new buffer (regions in linear form over each buffer's own length); plus the C06 merger rules. Output equality with a reference sort-and-merge is not decided."),
  "C08": ("boolean truth-table extraction of the spill condition + threshold/growth/trigger dataflow + parametricity witness", "4 C08",
          "Static analysis: the spill decision evaluated over its three boolean atoms (all 8 rows) equals `no spill iff fits or (not exceeded and allow)` with write_chunk before the insert; threshold = capacity >= clamped budget; growth factor exactly 2 from the non-fitting branch only; merge trigger `len >= max` (clamped >= 1), merge drains all and pushes one; budget settings survive build()/chunk_creator(); chunks only from ChunkCreator::create (bounds give no other constructor — compile-fail witness). The numeric high-water marks are not computed."),
  "C09": ("format-description extraction (SEQ/TABLE/EXPR facts) compared with the statement, the sibling side and grenad 0.4.7 (XVER)", "4 C09",
          "Static extraction of the embodied file format — trailer sequences per version, block framing, symbolic entry layout, offset-table footer, index-entry encoding, codec ids and inverse, endianness inventory, varint tables — compared as data with the statement's constants, writer vs reader, and the same facts extracted from grenad 0.4.7; plus the structural index/offset/finish-order rules. Byte-level conformance of emitted files needs execution and is not decided."),
  "C10": ("V1 trailer table extraction + who-may-read non-interference analysis of file_version", "4 C10",
-         "Static analysis: the V1 read arm decoded (seek End(-21), u64 LE / u8 via from_u8 / u64 LE, index_levels = 0, magic 0x76324D4C) and compared with the statement, write_into's V1 arm and (thorough) 0.4.7; V1/V2 arms agree up to the levels byte; Metadata.file_version is read only by the getter and the trailer writer, so no query code can depend on the version."),
+         "Static analysis: the V1 read arm decoded (seek End(-21), u64 LE / u8 via from_u8 / u64 LE, index_levels = 0, magic 0x76324D4C) and compared with the statement, write_into's V1 arm and (thorough) 0.4.7; V1/V2 arms agree up to the levels byte; Metadata.file_version is read only by the getter and the trailer writer, so no query code can depend on the version; Reader::new is the trailer read with its error propagated and nothing else (no second validation step sized for the V2 trailer)."),
  "C11": ("who-may-call inventory of I/O primitives + byte-count dataflow", "4 C11",
          "Static analysis: the only raw io::Write::write is CountWrite's counting delegation whose addend is the accepted byte count; no write_all override; a raw io::Read::read only inside an interruption-retrying pass-through adapter, and the caller's reader reaches the codec crates' decoders only behind that adapter (a decoder that cannot resume after ErrorKind::Interrupted was a genuine defect, repaired); block bodies read through take(len) + read_to_end/decoder; offsets only from CountWrite::count(); no nondeterministic primitives. Given std's write_all/read_exact/read_to_end contracts the emitted stream and read results are independent of how I/O calls are split or interrupted. Fixtures prove the zero-expected detectors fire."),
  "C12": ("error-discipline dataflow over every fallible call result + exhaustive conversion table", "4 C12",
@@ -36,7 +36,7 @@ CLAIMS = {
  "C14": ("EXPR extraction of the varint encode/decode tables + LEB128-32 condition check + guarded-narrowing dominance", "4 C14",
          "Static analysis: encode table (guard intervals, per-byte (shift, or-mask), length) and decode table (OR terms, required length, scanner flag) read off def-use chains and control dependence satisfy the exact conditions of a lossless 1..5-byte framing of all u32 values; writer and reader use key-length-then-value-length with consumed-byte advancing; `len as u32` casts dominated by surviving `<= u32::MAX` assertions; scratch buffer holds 5 bytes; thorough: tables equal 0.4.7's. Shape-bound (fails closed on a loop rewrite)."),
  "C15": ("MIR dominance/relation analysis of the block cut rule + estimate/emit width agreement", "4 C15",
-         "Static analysis: the `estimate >= block_size` test follows every data insert and is applied per visited index level over index_block_writers[1..]; true edges reach the flush of the measured writer; clamp max(1024, arg) through the only setter; estimate = buffer + 8*offsets + 4 equals what finish appends; flushed writers are reset on every exit. Compressed sizes are not decided."),
+         "Static analysis: the `estimate >= block_size` test follows every data insert and is applied per visited index level over index_block_writers[1..]; true edges reach the flush of the measured writer; entries are appended to a Writer's data block from Writer::insert only (no second entry path around the cut rule); clamp max(1024, arg) through the only setter; estimate = buffer + 8*offsets + 4 equals what finish appends; flushed writers are reset on every exit. Compressed sizes are not decided."),
  "C16": ("symbolic cost analysis (loads per call as a*D+b) over the loop-collapsed CFG and call graph with one typestate bit", "4 C16",
          "Static analysis: loads are exactly the 8 Block::new sites; open reaches none; load-reaching loops/recursion accepted only in three recognised D-bounded forms; computed maxima: lookups D+1, relative moves 2D+1 (cold cache), floor seek 2D+2 = 2(index_levels+2) — within the stated bound; each load preceded by one absolute seek."),
  "C17": ("unsafe-perimeter inventory (HIR) + per-operation obligations (MIR dataflow) + truncation-arithmetic contradiction rule + compile-fail witnesses", "4 C17",
